@@ -6,9 +6,9 @@ claimed = {
  "C01": ("proof", "functional postconditions on NewMnemonicByEntropy / fromEntropy (loop invariant over shr11) / Language.list, discharged per entropy size for symbolic entropy and language", "4 C01"),
  "C02": ("proof", "ghost clients verifRoundTrip* proved against the contracts of NewMnemonicByEntropy/NewMnemonic and CheckMnemonic/IsMnemonicValid (acc/shr11 ground-unfolded per size), plus CheckMnemonic's own clauses F1-F4 and the ten map-builder closures", "4 C02"),
  "C03": ("proof", "clauses F1-F4 of CheckMnemonic (loop invariant over acc), IsMnemonicValid iff-clause, verifBoolean, arithmetic count lemma, mapping closures", "4 C03"),
- "C04": ("proof", "postcondition of straight-line MnemonicToSeed against uninterpreted pbkdf2/nfkd with the NFKD ASCII-prefix axiom; PBKDF2/NFKD themselves are assumed", "4 C04"),
+ "C04": ("proof", "postcondition of straight-line MnemonicToSeed against uninterpreted pbkdf2/nfkd with the NFKD ASCII-prefix axiom; PBKDF2/NFKD themselves are assumed; a bounded conformance audit of the NFKD assumption (x/text vs python3 unicodedata) runs alongside and carries one open known finding (stream-safe NFKD for runs of more than 30 combining marks)", "4 C04, 5"),
  "C05": ("proof", "ghost client verifLossless: spec decoder applied to the postcondition of NewMnemonicByEntropy returns the entropy; uses list distinctness (ground)", "4 C05"),
- "C06": ("proof", "postconditions of NewMnemonic over a stream contract for io.ReadFull (assumed): fail-closed clause and exact-bytes clause", "4 C06"),
+ "C06": ("proof", "postconditions of NewMnemonic (fail-closed clause, exact-bytes clause); io.ReadFull and io.ReadAtLeast (standard library source) are verified too, against the stream contract of a source's Read method, which is the only assumption about the source", "4 C06, 10"),
  "C07": ("proof", "package initialiser symbolically executed: source variable == crypto/rand.Reader; no writer outside init (discipline scan); NewMnemonic postcondition mentions only the stream", "4 C07"),
  "C08": ("proof", "ground obligations over the ten composite literals (2048 x 10, exhaustive, by evaluation) plus list/mapping contracts tying data to the API", "4 C08"),
  "C09": ("proof", "gate postconditions of NewMnemonicByEntropy / NewMnemonic over exact 64-bit arithmetic, sentinel facts from init", "4 C09"),
